@@ -104,6 +104,73 @@ func (e *enum) collect(v reflect.Value, parent int) {
 	}
 }
 
+// fill puts a fresh marker node into every EMPTY child slot of every node of the tree: a nil field of type ast.Expr / ast.Stmt, an empty []ast.Expr /
+// []ast.Stmt.  The walk of the filled tree must present every marker (under its parent): the walker knows every child slot of every node type, not only the
+// ones the corpus happens to fill.  Returns the number of markers placed.
+func fill(root reflect.Value) int {
+	n := 0
+	seen := map[interface{}]bool{}
+	marker := func(t reflect.Type) reflect.Value {
+		n++
+		id := &ast.IdentExpr{Lit: fmt.Sprintf("zzmark%d", n)}
+		if t == stmtT {
+			return reflect.ValueOf(&ast.ExprStmt{Expr: id})
+		}
+		return reflect.ValueOf(id)
+	}
+	var rec func(v reflect.Value, inNode bool)
+	rec = func(v reflect.Value, inNode bool) {
+		if !v.IsValid() || v.Type() == rvT {
+			return
+		}
+		switch v.Kind() {
+		case reflect.Interface:
+			if v.IsNil() {
+				if inNode && v.CanSet() && (v.Type() == stmtT || v.Type() == exprT) {
+					v.Set(marker(v.Type()))
+				}
+				return
+			}
+			rec(v.Elem(), false)
+		case reflect.Ptr:
+			if v.IsNil() {
+				return
+			}
+			if _, tn := v.Interface().(*ast.TypeStruct); tn {
+				return
+			}
+			if isNodePtr(v) {
+				if seen[v.Interface()] {
+					return
+				}
+				seen[v.Interface()] = true
+				rec(v.Elem(), true)
+				return
+			}
+			rec(v.Elem(), false)
+		case reflect.Struct:
+			for i := 0; i < v.NumField(); i++ {
+				if v.Type().Field(i).PkgPath != "" {
+					continue
+				}
+				rec(v.Field(i), inNode)
+			}
+		case reflect.Slice:
+			if v.Len() == 0 && inNode && v.CanSet() && (v.Type().Elem() == stmtT || v.Type().Elem() == exprT) {
+				sl := reflect.MakeSlice(v.Type(), 1, 1)
+				sl.Index(0).Set(marker(v.Type().Elem()))
+				v.Set(sl)
+				return
+			}
+			for i := 0; i < v.Len(); i++ {
+				rec(v.Index(i), false)
+			}
+		}
+	}
+	rec(root, false)
+	return n
+}
+
 var errInjected = errors.New("injected by the callback")
 
 // a second program, walked from inside the callback of another walk (walks must not share state)
@@ -222,6 +289,16 @@ func main() {
 			seen[k] = true
 			v, errc, msg := walk(stmt, e, k)
 			enc.Encode(Walk{ID: s.ID, Par: e.par, Kinds: e.kinds, Visits: v, FailAt: k, Err: errc, ErrMsg: msg})
+		}
+		// last (it changes the tree): every empty child slot filled with a marker node
+		if fill(reflect.ValueOf(&stmt).Elem()) > 0 {
+			fe := &enum{ids: map[interface{}]int{}}
+			fe.collect(reflect.ValueOf(&stmt).Elem(), 0)
+			fv, ferrc, fmsg := walk(stmt, fe, 0)
+			if fv == nil {
+				fv = []int{}
+			}
+			enc.Encode(Walk{ID: s.ID + "|filled", Par: fe.par, Kinds: fe.kinds, Visits: fv, FailAt: 0, Err: ferrc, ErrMsg: fmsg})
 		}
 	}
 }
